@@ -15,12 +15,39 @@ void vf_dump_hook(unsigned call_no, const json_t *tree, size_t flags, const char
 
 static unsigned filled;
 
-static void any_message(jwt_t *jwt)
+static char last_msg[1024];          /* the per-call message as the last stub left it */
+static int last_failed;
+
+static void any_message(jwt_t *jwt, int failing)
 {
+	size_t i;
+	__CPROVER_assert(sizeof(jwt->error_msg) <= sizeof(last_msg), "harness: message buffer larger than the harness copy");
 	__CPROVER_havoc_slice(jwt->error_msg, sizeof(jwt->error_msg));
 	jwt->error_msg[sizeof(jwt->error_msg) - 1] = '\0';
 	jwt->error = nondet_int();
+	if (failing) {
+		/* contract of a failing step: the flag is set and a message was written (jwt_write_error) */
+		__CPROVER_assume(jwt->error_msg[0] != '\0');
+		jwt->error = 1;
+	}
+	for (i = 0; i < sizeof(jwt->error_msg); i++)
+		last_msg[i] = jwt->error_msg[i];
+	last_failed = failing;
 	filled++;
+}
+
+/* C14: what the caller reads back after a failure is the per-call message, whole */
+static int handed_back(const char *dst, size_t n)
+{
+	size_t i;
+	int same = 1, open_ = 1;
+	for (i = 0; i < n; i++) {
+		if (open_ && dst[i] != last_msg[i])
+			same = 0;
+		if (last_msg[i] == '\0')
+			open_ = 0;
+	}
+	return same && !open_;
 }
 
 static int terminated(const char *m, size_t n)
@@ -36,14 +63,21 @@ static int terminated(const char *m, size_t n)
 #ifdef SIDE_CHECKER
 int jwt_parse(jwt_t *jwt, const char *token, unsigned int *len)
 {
-	any_message(jwt);
+	int failing = nondet_bool();
+	any_message(jwt, failing);
 	*len = 0;
-	return nondet_bool();
+	return failing;
 }
 
 jwt_t *jwt_verify_complete(jwt_t *jwt, const jwt_config_t *config, const char *token, unsigned int payload_len)
 {
-	any_message(jwt);
+	int failing = nondet_bool();
+	any_message(jwt, failing);
+	if (!failing) {
+		jwt->error = 0;
+		jwt->error_msg[0] = '\0';
+		last_msg[0] = '\0';
+	}
 	return jwt;
 }
 
@@ -58,7 +92,13 @@ int main(void)
 	__CPROVER_assume(chk != NULL);
 	r = jwt_checker_verify(chk, "a.b.c");
 	PROP(terminated(chk->error_msg, sizeof(chk->error_msg)), "C06: the checker's message stays a string inside its buffer");
+	if (last_failed) {
+		PROP(r != 0 && jwt_checker_error(chk) != 0, "C14: a failed step makes verify return non-zero with the flag set");
+		PROP(chk->error_msg[0] != '\0', "C14: after a failure the checker's message is non-empty, whatever the length of the per-call message");
+		REACHF(handed_back(chk->error_msg, sizeof(chk->error_msg)), "the per-call message arrives whole");
+	}
 	REACH(filled == 1 && r != 0, "message handed back after a failed parse");
+	REACH(r != 0 && last_msg[sizeof(chk->error_msg) - 2] != '\0', "message that fills the buffer handed back");
 	REACH(filled == 2, "message handed back after the completion step");
 	jwt_checker_free(chk);
 	return 0;
@@ -66,13 +106,14 @@ int main(void)
 #else
 int jwt_head_setup(jwt_t *jwt)
 {
-	any_message(jwt);
-	return nondet_bool();
+	int failing = nondet_bool();
+	any_message(jwt, failing);
+	return failing;
 }
 
 char *jwt_encode_str(jwt_t *jwt)
 {
-	any_message(jwt);
+	any_message(jwt, 1);
 	return NULL;
 }
 
@@ -87,6 +128,11 @@ int main(void)
 	__CPROVER_assume(b != NULL);
 	out = jwt_builder_generate(b);
 	PROP(terminated(b->error_msg, sizeof(b->error_msg)), "C06: the builder's message stays a string inside its buffer");
+	if (last_failed) {
+		PROP(out == NULL && jwt_builder_error(b) != 0, "C14: a failed step makes generate return NULL with the flag set");
+		PROP(b->error_msg[0] != '\0', "C14: after a failure the builder's message is non-empty, whatever the length of the per-call message");
+		REACHF(handed_back(b->error_msg, sizeof(b->error_msg)), "the per-call message arrives whole");
+	}
 	REACH(filled == 1, "message handed back after a failed header set-up");
 	REACH(filled == 2, "message handed back after encoding");
 	(void)out;
